@@ -20,6 +20,7 @@ func checkC03(p *Prog, r *Report) {
 		return false
 	})
 	checkLookupBody(p, r, "C03")
+	wireKeyOwnership(p, r, BuildWire(p), "C03", "did", []string{"x/did/keeper.NewKeeper"}, "DID documents")
 }
 
 // C04 — DID sequence strictly monotonic; no replay.
@@ -34,7 +35,8 @@ func checkC04(p *Prog, r *Report) {
 		}
 		return false
 	})
-	didQueryRules(p, r, m, "C04", false, true)
+	didQueryRules(p, r, m, "C04", false, true, false)
+	wireKeyOwnership(p, r, BuildWire(p), "C04", "did", []string{"x/did/keeper.NewKeeper"}, "DID documents and sequences")
 }
 
 // C05 — created at most once; deactivation permanent.
@@ -49,8 +51,9 @@ func checkC05(p *Prog, r *Report) {
 		}
 		return false
 	})
-	didQueryRules(p, r, m, "C05", true, false)
+	didQueryRules(p, r, m, "C05", true, false, true)
 	didGenesisRules(p, r, m, "C05")
+	wireKeyOwnership(p, r, BuildWire(p), "C05", "did", []string{"x/did/keeper.NewKeeper"}, "DID documents and tombstones")
 }
 
 // C11 — a DID resolves to a document about itself.
@@ -59,12 +62,14 @@ func checkC11(p *Prog, r *Report) {
 	r.NotDec = []string{"hand-written genesis files (key vs document id is not validated at import; reported as a note)"}
 	r.Trusted = []string{"baseapp runs ValidateBasic before handlers (also for authz/gov/group wrapped messages)"}
 	r.Assume = []string{"ValidateBasic-before-handler sequencing of baseapp"}
-	didRules(p, r, "C11", func(tag string) bool {
+	m := didRules(p, r, "C11", func(tag string) bool {
 		switch tag {
 		case "bind", "store":
 			return true
 		}
 		return false
 	})
+	didQueryRules(p, r, m, "C11", false, false, true)
+	wireKeyOwnership(p, r, BuildWire(p), "C11", "did", []string{"x/did/keeper.NewKeeper"}, "DID documents")
 	r.Note("C11-D3: GenesisState.Validate checks key and document validity separately and does not compare the key with Document.Id (genesis files are trusted input; not a violation of the property as stated)")
 }
